@@ -217,7 +217,20 @@ impl Gen {
     }
     pub fn select(&mut self, value_col: &str, has_host: bool) -> (String, String) {
         // (select list, tail)
-        match sim::w(7) {
+        match sim::w(10) {
+            7 => {
+                self.features.push("distinct");
+                ("DISTINCT metric_name".into(), String::new())
+            }
+            8 => {
+                self.features.push("having");
+                ("metric_name, count(*) AS c".into(), " GROUP BY metric_name HAVING count(*) > 1".into())
+            }
+            9 => {
+                // ids are unique, so the three smallest are well defined
+                self.features.push("order-by-limit");
+                ("id".into(), " ORDER BY id LIMIT 3".into())
+            }
             0 => ("id".into(), String::new()),
             1 => (format!("id, timestamp, metric_name, {value_col}"), String::new()),
             2 => {
